@@ -97,6 +97,8 @@ def LEVINSON(r, order=None, allow_singularity=False):
         ref = numpy.zeros(M, dtype=complex)
 
     P = T0
+    if P <= 0 and allow_singularity==False:
+        raise ValueError("singular matrix")
 
     for k in range(0, M):
         save = T[k]
